@@ -57,6 +57,7 @@ func init() {
 		Replay: replay,
 		Assumptions: []string{
 			"messages are dynamicpb messages of a proto2 file built with descriptorpb/protodesc (explicit presence; lib/proto uses dynamicpb for every non-builtin message type)",
+			"extension fields (one optional and one repeated extension per kind, reached through set_field/get_field/has): acceptance, read-back, typing, freezing and panic-freedom are judged; their marshal->unmarshal round trip is not, because proto.unmarshal cannot see the thread's descriptor pool and returns them as unknown fields",
 			"conversions that the documentation leaves open (str->bytes field, bytes->string field, int->float/double, float not representable in binary32) are not judged for acceptance, only for panic-freedom and read-back",
 			"a violating state is not expanded further; per violation key only the first (shortest, BFS order) history is reported, all violating transitions are counted in counters",
 			"storage identity and the private frozen flag of wrappers are read by reflection for the state key only; no oracle depends on them",
